@@ -77,7 +77,7 @@ func NewMemServer(name, role string) *Server {
 	ms := NewMemStore()
 	for _, k := range keys.Kinds {
 		key := keys.Get(k.Alg, role)
-		ms.AddKey(k.Type, k.Bits, key, []*x509.Certificate{keys.SelfSigned(k.Alg+"-"+role, key)})
+		ms.AddKey(k.Type, k.Bits, key, keys.IssuedChain(k.Alg+"-"+role, key))
 	}
 	s := NewServer(name, role, ms, ms.Modules())
 	s.Mem = ms
@@ -89,7 +89,7 @@ func NewMemServer(name, role string) *Server {
 func (s *Server) UseKind(k keys.Kind) *Server {
 	if s.Mem != nil && k.IsBoundary() {
 		key := keys.Get(k.Alg, s.Role)
-		s.Mem.AddKey(k.Type, k.Bits, key, []*x509.Certificate{keys.SelfSigned(k.Alg+"-"+s.Role, key)})
+		s.Mem.AddKey(k.Type, k.Bits, key, keys.IssuedChain(k.Alg+"-"+s.Role, key))
 	}
 	return s
 }
@@ -446,7 +446,7 @@ func Transfer(ctx context.Context, from, to *Server, k keys.Kind, guid protocol.
 // Extend extends a voucher to next's public key (X5Chain encoding uses a self-signed chain).
 func Extend(ov *fdo.Voucher, owner crypto.Signer, next crypto.Signer, k keys.Kind) (*fdo.Voucher, error) {
 	if ov.Header.Val.ManufacturerKey.Encoding == protocol.X5ChainKeyEnc {
-		return fdo.ExtendVoucher(ov, owner, []*x509.Certificate{keys.SelfSigned(k.Alg+"-chain-"+fmt.Sprintf("%p", next), next)}, nil)
+		return fdo.ExtendVoucher(ov, owner, keys.IssuedChain(k.Alg+"-chain-"+fmt.Sprintf("%p", next), next), nil)
 	}
 	switch p := next.Public().(type) {
 	case *ecdsa.PublicKey:
